@@ -2,6 +2,7 @@
    usage: runner <poolfile>
    poolfile: lines "<kind> <hex>" -- encodings of opaque leaves that the implementation accepts.
    stdin commands, one per line; one answer line per command:
+     L <schema-id> <hex>        "L <kind>:<hex> ..." the opaque leaves a decode of the input consults (all accepted)
      D <schema-id> <hex>        decode.  "A <consumed> <reenc-hex> <alloc> <cap>" | "R" | "RO"
                                 (RO = rejected and the opaque-leaf oracle was asked about bytes
                                  outside the pool: verdict undecided)
@@ -57,9 +58,15 @@ let utf8_valid (bs : int list) : bool =
     | _ -> false in
   go bs
 
+(* permissive mode (command L): every opaque leaf is accepted and recorded, so that the check can ask the
+   implementation about exactly the leaves a decode of this input looks at *)
+let permissive = ref false
+let queries : (int * string) list ref = ref []
+
 let valid (k : n) (bs : n list) : bool =
   let k = int_of_n k in
   if k = 6 then utf8_valid (List.map int_of_n bs)
+  else if !permissive then begin queries := (k, hex_of_bytes bs) :: !queries; true end
   else begin
     let h = hex_of_bytes bs in
     match Hashtbl.find_opt pool k with
@@ -93,7 +100,9 @@ let next64 () =
   let z = Int64.mul (Int64.logxor z (Int64.shift_right_logical z 27)) 0x94D049BB133111EBL in
   Int64.logxor z (Int64.shift_right_logical z 31)
 let below n = if n <= 0 then 0 else Int64.to_int (Int64.unsigned_rem (next64 ()) (Int64.of_int n))
-let rand_byte () = below 256
+(* byte_mode 1: bytes restricted to [a-z0-9] (fallback for refinements on byte strings the generator cannot satisfy blindly) *)
+let byte_mode = ref 0
+let rand_byte () = if !byte_mode = 1 then (let k = below 36 in if k < 26 then 97 + k else 48 + k - 26) else below 256
 
 (* a number of w bytes, boundary heavy *)
 let rand_num (w : int) : n =
@@ -202,13 +211,15 @@ and gen_refined (p : pred) (s' : schema) : gval =
        | _ -> raise (Gen_failed (Printf.sprintf "empty pool for opaque kind %d" k)))
   | _ ->
       let rec attempt i =
-        if i > 400 then raise (Gen_failed "refinement not satisfiable by the generator") else
+        if i > 600 then (byte_mode := 0; raise (Gen_failed "refinement not satisfiable by the generator")) else begin
+          if i = 150 then byte_mode := 1;
           let v = fixup p (gen s') in
-          if eval_pred valid p v && wt valid s' v then v else attempt (i + 1) in
+          if eval_pred valid p v && wt valid s' v then (if i >= 150 then byte_mode := 0; v) else attempt (i + 1)
+        end in
       attempt 0
 
 let find_schema id =
-  match List.find_opt (fun (i, _) -> int_of_n i = id) (chain_schema_table @ gen_schema_table) with
+  match List.find_opt (fun (i, _) -> int_of_n i = id) (chain_schema_table @ gen_schema_table @ full_schema_table) with
   | Some (_, s) -> s
   | None -> failwith (Printf.sprintf "unknown schema id %d" id)
 
@@ -228,6 +239,15 @@ let () =
                 Printf.printf "A %d %s %s %s\n" consumed (hex_of_bytes re)
                   (n_to_string (alloc valid s bs)) (n_to_string (cap s))
             | None -> print_string (if !opaque_unknown then "RO\n" else "R\n"))
+       | "L" :: id :: rest ->
+           let s = find_schema (int_of_string id) in
+           let bs = bytes_of_hex (match rest with h :: _ -> h | [] -> "") in
+           permissive := true; queries := [];
+           ignore (dec valid s bs);
+           permissive := false;
+           print_string "L";
+           List.iter (fun (k, h) -> Printf.printf " %d:%s" k h) (List.sort_uniq compare !queries);
+           print_newline ()
        | ["G"; id; seed; n] ->
            let id = int_of_string id in
            let s = find_schema id in
